@@ -173,11 +173,11 @@ func (sp *Specs) parseFile(pkgPath, file string) error {
 			case "confined":
 				// confined Type.field writers f, g property Cxx
 				fs := strings.Fields(strings.ReplaceAll(rest, ",", " "))
-				if len(fs) < 3 || fs[1] != "writers" {
+				if len(fs) < 3 || (fs[1] != "writers" && fs[1] != "readers") {
 					return fmt.Errorf("%s: bad confined declaration", where)
 				}
 				dot := strings.LastIndex(fs[0], ".")
-				cs := &confinedSpec{Pkg: pkgPath, Type: fs[0][:dot], Field: fs[0][dot+1:], Where: where}
+				cs := &confinedSpec{Pkg: pkgPath, Type: fs[0][:dot], Field: fs[0][dot+1:], Where: where, Readers: fs[1] == "readers"}
 				i := 2
 				for ; i < len(fs) && fs[i] != "property"; i++ {
 					cs.Writers = append(cs.Writers, fs[i])
